@@ -592,6 +592,17 @@ func (env *Env) evalCall(t *ECall) Value {
 	case "off":
 		v := env.eval(t.Args[0])
 		return c.Scalar(tInt, v.SOff())
+	case "calls":
+		// calls(f): how many calls named f the function's own body has executed so far
+		k, ok := x.callCounters[exprString(t.Args[0])]
+		if !ok {
+			env.fail("calls(%s): function context needed (only in ensures / assert clauses of the function itself)", exprString(t.Args[0]))
+		}
+		v, live := env.st.cells[k]
+		if !live {
+			env.fail("calls(%s): function context needed", exprString(t.Args[0]))
+		}
+		return v
 	case "has":
 		// has(m, k): key k is present in map m (maps with scalar keys, see maps.go)
 		m := env.eval(t.Args[0])
